@@ -313,6 +313,14 @@ impl State for FileState {
 
     async fn apply(&self, user_id: u32, command: EntryCommand) -> Result<(), IggyError> {
         debug!("Applying state entry with command: {command}, user ID: {user_id}");
+        #[cfg(iggy_verif)]
+        {
+            // schedule point before the journal is touched; k = code of the command being journalled
+            use iggy::bytes_serializable::BytesSerializable;
+            let bytes = command.to_bytes();
+            let code = u32::from_le_bytes([bytes[0], bytes[1], bytes[2], bytes[3]]);
+            crate::verif::point("state.apply.enter", code as u64).await;
+        }
         // The commands can be applied concurrently (e.g. by the handlers holding only the shared system lock):
         // the index is taken and the entry is appended under the lock, and the index is consumed only
         // when the entry has been appended, otherwise the file could get out of order or have gaps.
